@@ -21,7 +21,8 @@ def _record_chunk(job):
         reqs.append(req)
         ev.append(tracer_rec.record(req))
     if shapes is None and k == 0:        # C10 / C11: closed curves in short decimals, both directions
-        for req in tracer_rec.closed_curves(random.Random(sd * 17 + 3)) + tracer_rec.small_loops(random.Random(sd * 23 + 5)):
+        for req in tracer_rec.closed_curves(random.Random(sd * 17 + 3)) + tracer_rec.small_loops(random.Random(sd * 23 + 5)) \
+                + tracer_rec.off_circle(random.Random(sd * 29 + 7)):
             reqs.append(req)
             ev.append(tracer_rec.record(req))
     if shapes:          # C12: the unit systems, and one path thousands of resolutions long per chunk
